@@ -119,10 +119,15 @@ pub(crate) fn without_terminator(
     bytes: &[u8],
     line_term: LineTerminator,
 ) -> &[u8] {
-    let line_term = line_term.as_bytes();
-    let start = bytes.len().saturating_sub(line_term.len());
-    if bytes.get(start..) == Some(line_term) {
-        return &bytes[..bytes.len() - line_term.len()];
+    let term = line_term.as_bytes();
+    let start = bytes.len().saturating_sub(term.len());
+    if bytes.get(start..) == Some(term) {
+        return &bytes[..bytes.len() - term.len()];
+    }
+    // With CRLF, lines are still split on `\n` alone, so a line may end with
+    // a `\n` that isn't preceded by a `\r`. It is still its terminator.
+    if line_term.is_crlf() && bytes.last() == Some(&b'\n') {
+        return &bytes[..bytes.len() - 1];
     }
     bytes
 }
